@@ -27,6 +27,7 @@ type Profile struct {
 	CloseOps   bool
 	IOOps      bool
 	Names      []string
+	PrefixNames bool  // the collections include a family of names that are prefixes of each other
 	Aim        string // queries, sorts and documents favour this field
 	AltIds     bool // ids in every textual form uuid.FromString accepts, not only the canonical one
 	BigInts    bool
@@ -108,7 +109,25 @@ func NewGen(seed int64, p *Profile) *Gen {
 	if names == nil {
 		names = namePool
 	}
+	if p.PrefixNames {
+		// collections whose names are prefixes of each other, around a name drawn from the pool
+		b := namePool[g.r.Intn(len(namePool))]
+		names = append([]string{b, b + "b", b + "bc", b + " "}, names...)
+	}
 	perm := g.r.Perm(len(names))
+	if p.PrefixNames {
+		// the prefix family first (the first collection is the one the sweeps work on), then a draw
+		perm = append([]int{0, 1, 2, 3}, g.r.Perm(len(names))...)
+		seen := map[int]bool{}
+		var uniq []int
+		for _, i := range perm {
+			if !seen[i] && (i < 4 || names[i] != names[0] && names[i] != names[1] && names[i] != names[2] && names[i] != names[3]) {
+				seen[i] = true
+				uniq = append(uniq, i)
+			}
+		}
+		perm = uniq
+	}
 	for i := 0; i < p.Colls && i < len(names); i++ {
 		g.colls = append(g.colls, escName(names[perm[i]]))
 	}
